@@ -129,6 +129,38 @@ func cond() bool        { return G1 > 0 }
 func two() (int, error) { return G1, nil }
 func up(p unsafe.Pointer) uintptr { return uintptr(p) }
 
+func mkS() S { return GS }
+
+// rareKinds pins the instruction kinds that random statements hit only occasionally.
+func rareKinds[T ~[]byte | ~string](t T, s []int, c chan int, st S) (int, string) {
+	a := [2]int(s)          // SliceToArray
+	p := (*[2]int)(s)       // SliceToArrayPointer
+	bs := []byte(t)         // MultiConvert
+	ch := make(chan int, 2) // MakeChan
+	ms := make([]int, len(s), 2+len(s)) // MakeSlice
+	ch <- mkS().arr[1]      // Field, Index, Send
+	m := map[string]int{}   // MakeMap
+	m[string(bs)] = <-ch    // MapUpdate, Recv
+	for k, v := range m {   // Range, Next
+		ms = append(ms, len(k)+v)
+	}
+	var i any = st
+	if j, ok := i.(J); ok { // TypeAssert
+		i = I(j) // ChangeInterface
+	}
+	if a[0] > p[1] {
+		select {} // Unreachable
+	}
+	go esc(&ms[0])
+	defer func() { recover() }()
+	return a[0] + p[1] + ms[0] + -len(m), string(bs)
+}
+
+func useRare(s []int, c chan int) {
+	sink(rareKinds("x", s, c, GS))
+	sink(rareKinds([]byte("y"), s, c, GS))
+}
+
 var G1 int
 var GS S
 var GI I = MyInt(3)
